@@ -5,8 +5,8 @@
    C0 (0x00-0x1F), DEL (0x7F), C1 (0x80-0x9F).  [wc] is wcwidth, any function
    ([wc_ascii wc]: printable ASCII has width 1); [sty] is the style machinery. *)
 From Coq Require Import ZArith List Bool.
-From PTK Require Import Lib.Sx Lib.Py Gen.C10_DisplayMappings Model.C10_Screen
-     Proofs.C10_TableFacts Proofs.C10_CopyFacts Proofs.C10_RenderFacts.
+From PTK Require Import Lib.Sx Lib.Py Gen.C10_DisplayMappings Model.C10_Screen Model.C10_Producers
+     Proofs.C10_TableFacts Proofs.C10_CopyFacts Proofs.C10_RenderFacts Proofs.C10_ProducerFacts.
 Import ListNotations.
 Open Scope Z_scope.
 
@@ -113,6 +113,82 @@ Theorem C10_raw_only_marked : forall wc sty g M pfx lines app width ri x y last 
 Proof. exact pipeline_zwe_marked. Qed.
 Print Assumptions C10_raw_only_marked.
 
+(* ---- the fragment producers (Model/C10_Producers.v) ----
+   None of them marks text "[ZeroWidthEscape]" by itself: unmarked application
+   styles / supplied fragments in, unmarked fragment lines out.  Displayed text
+   only ever lands in the TEXT component of a fragment. *)
+Theorem C10_ftc_lines_unmarked : forall st fs,
+  unmarked_style st -> all_unmarked fs -> Forall all_unmarked (ftc_lines st fs).
+Proof. exact ftc_lines_unmarked. Qed.
+Print Assumptions C10_ftc_lines_unmarked.
+
+Theorem C10_buffer_lines_unmarked : forall lexstyle ps text,
+  unmarked_style lexstyle -> Forall proc_unmarked ps -> Forall all_unmarked (buffer_lines lexstyle ps text).
+Proof. exact buffer_lines_unmarked. Qed.
+Print Assumptions C10_buffer_lines_unmarked.
+
+Theorem C10_menu_item_unmarked : forall wc cstyle selstyle display cur width sp,
+  unmarked_style cstyle -> unmarked_style selstyle -> all_unmarked display ->
+  all_unmarked (menu_item wc cstyle selstyle display cur width sp).
+Proof. exact menu_item_unmarked. Qed.
+Print Assumptions C10_menu_item_unmarked.
+
+(* Unmarked lines (and prefixes): nothing is passed through raw and every
+   control character of the stream was generated by the renderer. *)
+Theorem C10_unmarked_lines_stream : forall wc sty g pfx lines app width ri x y last vis,
+  wc_ascii wc -> pfx_unmarked pfx -> Forall all_unmarked lines ->
+  forall o c, In (o, c) (tagged_stream (rendered_tokens wc sty g pfx lines app width ri x y last vis)) ->
+  (o = FromZWE -> False) /\ (is_control c = true -> o = FromRenderer).
+Proof. exact unmarked_lines_stream. Qed.
+Print Assumptions C10_unmarked_lines_stream.
+
+(* The four placements of the property text, for ANY string (all code points):
+   edited text in a BufferControl (any of the modelled processors), the prompt
+   message (BeforeInput), a bottom toolbar (FormattedTextControl) and a
+   completion's display text in the menu. *)
+Theorem C10_plain_buffer : forall wc sty g lexstyle ps text app width ri x y last vis,
+  wc_ascii wc -> unmarked_style lexstyle -> Forall proc_unmarked ps ->
+  forall o c, In (o, c) (tagged_stream (rendered_tokens wc sty g None (buffer_lines lexstyle ps text) app width ri x y last vis)) ->
+  (o = FromZWE -> False) /\ (is_control c = true -> o = FromRenderer).
+Proof. exact plain_buffer_stream. Qed.
+Print Assumptions C10_plain_buffer.
+
+Theorem C10_plain_message : forall wc sty g lexstyle mstyle message text app width ri x y last vis,
+  wc_ascii wc -> unmarked_style lexstyle -> unmarked_style mstyle ->
+  forall o c, In (o, c) (tagged_stream (rendered_tokens wc sty g None
+        (buffer_lines lexstyle [PBeforeInput mstyle (ft_of_str message)] text) app width ri x y last vis)) ->
+  (o = FromZWE -> False) /\ (is_control c = true -> o = FromRenderer).
+Proof. exact plain_message_stream. Qed.
+Print Assumptions C10_plain_message.
+
+Theorem C10_plain_toolbar : forall wc sty g style text app width ri x y last vis,
+  wc_ascii wc -> unmarked_style style ->
+  forall o c, In (o, c) (tagged_stream (rendered_tokens wc sty g None (ftc_lines style (ft_of_str text)) app width ri x y last vis)) ->
+  (o = FromZWE -> False) /\ (is_control c = true -> o = FromRenderer).
+Proof. exact plain_toolbar_stream. Qed.
+Print Assumptions C10_plain_toolbar.
+
+Theorem C10_plain_completion : forall wc sty g cstyle selstyle display cur w sp app width ri x y last vis,
+  wc_ascii wc -> unmarked_style cstyle -> unmarked_style selstyle ->
+  forall o c, In (o, c) (tagged_stream (rendered_tokens wc sty g None
+        [menu_item wc cstyle selstyle (ft_of_str display) cur w sp] app width ri x y last vis)) ->
+  (o = FromZWE -> False) /\ (is_control c = true -> o = FromRenderer).
+Proof. exact plain_menu_stream. Qed.
+Print Assumptions C10_plain_completion.
+
+(* Key data (the two store sites whose text is not displayed content): a
+   multi-character key sequence never has display width 1 (so the key-buffer
+   cell only gets one character, which Char sanitises), and except for ESC TAB
+   (Keys.BackTab, bound in every mode) it is control-free after `write`. *)
+Theorem C10_key_data_width : forall s w, In (s, w) key_sequences -> w <> 1.
+Proof. exact key_data_width. Qed.
+Print Assumptions C10_key_data_width.
+
+Theorem C10_key_data_write_clean : forall s w, In (s, w) key_sequences -> s <> [27; 9] ->
+  control_free (vt_write s) = true.
+Proof. exact key_data_write_clean. Qed.
+Print Assumptions C10_key_data_write_clean.
+
 (* The fuelled loops of the model (row loop, "%i") never run out of fuel. *)
 Theorem C10_fuel : forall wc sty g M pfx lines app width ri x y last vis,
   wc_ascii wc -> pfx_marked M pfx -> (forall l, In l lines -> frags_marked M l) ->
@@ -131,7 +207,7 @@ Print Assumptions C10_dec_fuel.
 Example C10_hypotheses_satisfiable :
   wc_ascii (fun _ => 1) /\
   let wc := fun c => if c =? 769 then 0 else 1 in
-  let g := mkcfg 10 1 0 0 false in
+  let g := mkcfg 10 1 0 0 false 0 0 in
   let s := copy_body wc g None [[([], [101; 769; 27; 155]); (ZWE_MARK, [27; 93])]] blank_screen in
   map (fun x => cch (get_cell wc (get_row (sdata s) 0) x)) [0; 1; 3] = [[101; 769]; [94; 91]; [60; 57; 98; 62]]
   /\ szwe s = [(0, [(7, [27; 93])])].
